@@ -162,18 +162,18 @@ Definition sn_ok (k : skey) (s : snet) : Prop :=
   (forall a, wf_ip a -> contains s a = rid_matches (id_of_skey k) a) /\
   denote false s = Some (den (id_of_skey k)).
 
-Lemma sn_ok_orig : forall s, wf_snet s -> snet_key s <> None -> sn_ok (skey_of s) s.
-Proof.
-  intros s H Hk. split; [apply skey_of_wf; assumption|]. split.
-  - intros a Ha. apply contains_matches_key; assumption.
-  - rewrite denote_den, denote_textual by assumption. reflexivity.
-Qed.
-
 Lemma sn_ok_parse : forall k, wf_skey k -> sn_ok k (parse_cidr k).
 Proof.
   intros k H. split; [exact H|]. split.
   - intros a Ha. apply parse_cidr_matches; assumption.
   - apply parse_cidr_denote, H.
+Qed.
+
+(* what BlockSubnet stores: the re-parsed subnet under its canonical key *)
+Lemma sn_ok_block : forall s, wf_snet s -> snet_key s <> None -> sn_ok (ckey s) (cnet s).
+Proof.
+  intros s H Hk. pose proof (skey_of_wf s H Hk) as Hw. unfold cnet, ckey.
+  rewrite <- (parse_canon (skey_of s) Hw). apply sn_ok_parse, canon_key_wf, Hw.
 Qed.
 
 (* ---- the invariant ----------------------------------------------------------- *)
@@ -200,7 +200,7 @@ Proof.
   - apply (In_a_put _ akey_eqb_spec) in H.
     destruct H as [[-> ->]|[H _]]; [split; [reflexivity|apply ipkey_wf, Hw]|apply (Ha k v H)].
   - apply (In_a_put _ skey_eqb_spec) in H. destruct Hw.
-    destruct H as [[-> ->]|[H _]]; [split; [reflexivity|apply skey_of_wf; assumption]|apply (Hs k v H)].
+    destruct H as [[-> ->]|[H _]]; [split; [reflexivity|apply canon_key_wf, skey_of_wf; assumption]|apply (Hs k v H)].
   - apply (In_a_del _ zeqb_spec) in H. destruct H as [H _]. eauto.
   - apply (In_a_del _ akey_eqb_spec) in H. destruct H as [H _]. apply (Ha k v H).
   - apply (In_a_del _ skey_eqb_spec) in H. destruct H as [H _]. apply (Hs k v H).
@@ -254,16 +254,16 @@ Proof.
   - intros k. split.
     + intros [s0 H]. apply (In_a_put _ skey_eqb_spec) in H.
       destruct H as [[-> _]|[H N]].
-      * exists (skey_of s). apply (In_a_put _ skey_eqb_spec). auto.
+      * exists (ckey s). apply (In_a_put _ skey_eqb_spec). auto.
       * assert (E : exists s, In (k, s) (r_subnets m)) by eauto. apply As in E. destruct E as [v E].
         exists v. apply (In_a_put _ skey_eqb_spec). auto.
     + intros [v H]. apply (In_a_put _ skey_eqb_spec) in H.
       destruct H as [[-> _]|[H N]].
-      * exists s. apply (In_a_put _ skey_eqb_spec). auto.
+      * exists (cnet s). apply (In_a_put _ skey_eqb_spec). auto.
       * assert (E : exists v, In (k, v) (d_subnets d)) by eauto. apply As in E. destruct E as [s0 E].
         exists s0. apply (In_a_put _ skey_eqb_spec). auto.
   - intros k s0 H. apply (In_a_put _ skey_eqb_spec) in H. destruct Hw.
-    destruct H as [[-> ->]|[H _]]; [apply sn_ok_orig; assumption|eauto].
+    destruct H as [[-> ->]|[H _]]; [apply sn_ok_block; assumption|eauto].
   - intros q. split.
     + intros H. apply (In_s_del _ zeqb_spec) in H. destruct H as [H N]. apply Ap in H. destruct H as [v H].
       exists v. apply (In_a_del _ zeqb_spec). auto.
@@ -322,20 +322,21 @@ Definition model_has (m : rules) (id : rid) : Prop :=
   | IdSubnet f nn len => exists s, In ((akey_of f nn, len), s) (r_subnets m)
   end.
 
-(* the identity under which the code files a rule *)
+(* the identity under which the code files a rule; for a subnet the canonical
+   key, which is also the identity the property gives it (rid_of_rule_tid) *)
 Definition tid (r : rule) : rid :=
   match r with
   | RPeer p => IdPeer p
   | RAddr a => id_of_akey (ipkey a)
-  | RSubnet s => id_of_skey (skey_of s)
+  | RSubnet s => id_of_skey (ckey s)
   end.
 
-Lemma rid_of_rule_textual : forall r, wf_rule r -> rid_of_rule true r = Some (tid r).
+Lemma rid_of_rule_tid : forall r, wf_rule r -> rid_of_rule false r = Some (tid r).
 Proof.
   intros [p|a|s] H; cbn in *.
   - reflexivity.
   - rewrite <- addr_id_ipkey. unfold addr_id. destruct (norm_ip a). reflexivity.
-  - destruct H. apply denote_textual; assumption.
+  - destruct H. apply denote_ckey; assumption.
 Qed.
 
 Lemma akey_of_id : forall k, match id_of_akey k with IdAddr f v => akey_of f v = k | _ => False end.
@@ -375,7 +376,7 @@ Proof.
       cbn [model_has mem_update r_peers r_addrs r_subnets].
     + rewrite (In_s_add _ zeqb_spec). tauto.
     + rewrite (In_s_add _ akey_eqb_spec). tauto.
-    + split; [reflexivity|]. intros _. exists s. apply (In_a_put _ skey_eqb_spec). auto.
+    + split; [reflexivity|]. intros _. exists (cnet s). apply (In_a_put _ skey_eqb_spec). auto.
     + rewrite (In_s_del _ zeqb_spec). split; [tauto|discriminate].
     + rewrite (In_s_del _ akey_eqb_spec). split; [tauto|discriminate].
     + split; [|discriminate]. intros [s0 H]. apply (In_a_del _ skey_eqb_spec) in H. tauto.
